@@ -93,10 +93,12 @@ func cmdC04(seed uint64, tier, outdir string) {
 	for k := 0; k < 8+n/10; k++ {
 		src := ins[r.intn(len(ins))]
 		ws := strings.Split(string(src.data), " ")
-		for j := 0; j < 5 && len(ws) > 6; j++ {
-			i := 1 + r.intn(len(ws)-2)
+		done := 0
+		start := r.intn(len(ws))
+		for step := 0; step < len(ws) && done < 4; step++ {
+			i := (start + step) % len(ws)
 			w := ws[i]
-			if len(w) < 6 || strings.ContainsAny(w, "\n-&;0123456789") {
+			if i == 0 || i+1 >= len(ws) || len(w) < 6 || strings.ContainsAny(w, "\n-&;0123456789") || (done > 0 && step%7 != 0) {
 				continue
 			}
 			a := 2 + r.intn(len(w)-4)
@@ -106,6 +108,11 @@ func cmdC04(seed uint64, tier, outdir string) {
 				fresh += string(rune('a' + v%26))
 			}
 			ws[i] = fresh + " lesser " + w[:a] + "-\n" + w[a:] + " " + oovWords[r.intn(len(oovWords))]
+			done++
+		}
+		if done == 0 {
+			// no eligible word in this text: a line of its own in front of it
+			ws = append([]string{"zqfresh" + string(rune('a'+k%26)) + string(rune('a'+(k/26)%26)) + " lesser docu-\nmentation quux\n"}, ws...)
 		}
 		ins = append(ins, input{"hyphenated+oov:" + src.name, []byte(strings.Join(ws, " "))})
 	}
@@ -149,11 +156,27 @@ func cmdC04(seed uint64, tier, outdir string) {
 		tc := &classifier.TraceConfiguration{TracePhases: "*", TraceLicenses: "*", Tracer: func(f string, a ...interface{}) { fmt.Fprintf(&sink, f, a...) }}
 		base.SetTraceConfiguration(tc)
 		check("tracing enabled", fmtResults(base.Match(in.data)))
+		// prefix patterns over the document keys, no phase: nothing is printed, nothing may be remembered either
+		base.SetTraceConfiguration(&classifier.TraceConfiguration{TraceLicenses: "License/A*,License/M*,Header/*,L*", TracePhases: ""})
+		tt0 := base.VerifTraceTableSize()
+		check("tracing with prefix patterns", fmtResults(base.Match(in.data)))
+		if tt1 := base.VerifTraceTableSize(); tt1 != tt0 && verdict == "" {
+			verdict = fmt.Sprintf("Match changed the installed trace configuration: its license table grew from %d to %d entries", tt0, tt1)
+		}
 		base.SetTraceConfiguration(&classifier.TraceConfiguration{})
 		sink.Reset()
 		check("tracing disabled again", fmtResults(base.Match(in.data)))
 		if !bytes.Equal(orig, in.data) {
 			verdict = "the caller's byte slice was modified"
+		}
+		{
+			kept := base.Match(in.data)
+			snap := fmtResults(kept)
+			base.Match(ins[r.intn(len(ins))].data)
+			base.Normalize(in.data)
+			if fmtResults(kept) != snap && verdict == "" {
+				verdict = "a Results value returned earlier changed when Match/Normalize were called again"
+			}
 		}
 		if dictGrew {
 			verdict = fmt.Sprintf("Match changed the classifier: dictionary grew from %d words", dict0)
